@@ -17,8 +17,8 @@ LEVEL_TEXT = ('every state of $topdir/.Trash (sticky dir, non-sticky dir, symlin
 LEVEL_NOTE = 'trusted: shim mount table / psutil substitute; ownership checks of .Trash/$uid itself are not part of the property'
 RULE = ('.Trash state (8, incl. mode 2777 and 0700) x command (put, list, restore+reply, empty, empty 0, rm *, rm exact, list --all-users and empty --all-users with three accounts in /etc/passwd, list --size, list --files, put with .Trash-uid blocked by a regular file) x volumes (v1 only; v1 insecure + v2 secure; a secure v0 listed before v1) x uid '
         '(0, 1000); non-trivial = the command examined the volume (stat of .Trash seen in the trace); distinct = outcome class x state x command')
-STATES = ['sticky', 'nonsticky', 'nonsticky-setgid', 'nonsticky-private', 'symlink-sticky', 'symlink-nonsticky', 'file', 'absent']
-CMDS = ['put', 'list', 'restore', 'empty', 'empty0', 'rm-star', 'rm-exact', 'put-then-insecure', 'list-all-users', 'empty-all-users', 'list-size', 'list-files', 'put-alt-blocked']
+STATES = ['sticky', 'nonsticky', 'nonsticky-uidlink', 'nonsticky-setgid', 'nonsticky-private', 'symlink-sticky', 'symlink-nonsticky', 'file', 'absent']
+CMDS = ['put', 'list', 'restore', 'empty', 'empty0', 'rm-star', 'rm-exact', 'put-then-insecure', 'list-all-users', 'empty-all-users', 'list-size', 'list-files', 'put-alt-blocked', 'restore-empty-td']
 VOLS = ['v1', 'v1+v2', 'v1-sticky-topdir', 'v0+v1']
 
 
@@ -29,7 +29,7 @@ def dimensions(tier):
 def cases(tier):
     out = [{'st': s, 'cmd': c, 'vols': v, 'uid': u} for u in (0, 1000) for v in VOLS for c in CMDS for s in STATES]
     # a volume whose mount point merely EXTENDS the text of $HOME (/home/u-usb next to HOME=/home/u): no special treatment
-    out += [{'st': s, 'cmd': 'put', 'vols': 'home-prefix', 'uid': u} for u in (0, 1000) for s in STATES]
+    out += [{'st': s, 'cmd': 'put', 'vols': 'home-prefix', 'uid': u} for u in (0, 1000) for s in STATES if s != 'nonsticky-uidlink']
     # the volume list comes from TRASH_VOLUMES and spells the volume as LINK/.. (and with doubled / trailing slashes)
     out += [{'st': 'sticky', 'cmd': cmd, 'vols': 'env-' + sp, 'uid': u} for u in (0, 1000) for sp in ('dotdot', 'slashes') for cmd in ('list', 'empty', 'empty0', 'rm-star')]
     return out
@@ -131,6 +131,10 @@ def run_case(c):
     if st == 'sticky':
         W.dir('/mnt/v1/.Trash', mode=0o1777)
         phys = '/mnt/v1/.Trash'
+    elif st == 'nonsticky-uidlink':
+        # .Trash is not sticky AND the $uid entry in it is a symbolic link to a populated directory kept elsewhere on the volume
+        W.dir('/mnt/v1/.Trash', mode=0o777)
+        phys = '/mnt/v1/.store'
     elif st in ('nonsticky', 'nonsticky-private', 'nonsticky-setgid'):
         W.dir('/mnt/v1/.Trash', mode={'nonsticky': 0o777, 'nonsticky-private': 0o700, 'nonsticky-setgid': 0o2777}[st])
         phys = '/mnt/v1/.Trash'
@@ -140,6 +144,8 @@ def run_case(c):
     elif st == 'file':
         W.file('/mnt/v1/.Trash', 'x')
     td = populate(W, phys, uid, '/mnt/v1', 'v1') if phys else None
+    if st == 'nonsticky-uidlink':
+        W.link('/mnt/v1/.Trash/%d' % uid, '/mnt/v1/.store/%d' % uid)
     OTHER = 1001
     if c['cmd'].endswith('-all-users'):
         # three accounts: one without any trash directory (listed first), the invoking user, and another user whose $topdir/.Trash/$uid is populated too
@@ -160,6 +166,7 @@ def run_case(c):
                    'rm-exact': (['trash-rm', '/mnt/v1/w/one-v1'], None), 'put-then-insecure': (None, None),
                    'list-size': (['trash-list', '--size'], None), 'list-files': (['trash-list', '--files'], None),
                    'put-alt-blocked': (['trash-put', 'new'], None),
+                   'restore-empty-td': (['trash-restore', '--trash-dir', '', '/'], '0\n'),          # an empty option value (an unset shell variable): like no option at all
                    'list-all-users': (['trash-list', '--all-users'], None), 'empty-all-users': (['trash-empty', '--all-users'], None)}[cmd]
     if cmd == 'put-then-insecure':
         return run_put_then_insecure(c, W, uid, td)
@@ -169,7 +176,7 @@ def run_case(c):
         after = sb.snapshot()
     secure = st == 'sticky'
     detail = {'argv': argv, 'exit': r.exit, 'out': r.out[-400:], 'err': r.err[-400:]}
-    if cmd == 'restore' and ('myalt-x1' not in r.out or (c['vols'] == 'v1+v2' and 'one-v2' not in r.out)):
+    if cmd in ('restore', 'restore-empty-td') and ('myalt-x1' not in r.out or (c['vols'] == 'v1+v2' and 'one-v2' not in r.out)):
         return {'verdict': 'viol', 'sig': 'C08|restore-does-not-offer-entries-of-usable-trash-dirs|st=%s' % st, 'klass': 'usable-not-offered',
                 'detail': {'out': r.out[-400:], 'err': r.err[-300:]}}
     if cmd in ('list', 'list-all-users', 'list-size', 'list-files') and 'myalt-x1' not in r.out:
@@ -178,8 +185,10 @@ def run_case(c):
         return {'verdict': 'viol', 'sig': 'C08|own-Trash-uid-not-purged|cmd=%s|st=%s' % (cmd, st), 'klass': 'alt-not-purged', 'detail': {'err': r.err[-300:]}}
     examined = any('/mnt/v1/.Trash' in p for t in r.trace for p in t[2])
     dims = 'st=%s|cmd=%s' % (st, cmd)
-    sub_b = world.under(before, '/mnt/v1/.Trash') if st not in ('symlink-sticky', 'symlink-nonsticky') else world.under(before, '/mnt/v1/.real')
-    sub_a = world.under(after, '/mnt/v1/.Trash') if st not in ('symlink-sticky', 'symlink-nonsticky') else world.under(after, '/mnt/v1/.real')
+    where = '/mnt/v1/.real' if st in ('symlink-sticky', 'symlink-nonsticky') else ('/mnt/v1/.store' if st == 'nonsticky-uidlink' else '/mnt/v1/.Trash')
+    sub_b, sub_a = world.under(before, where), world.under(after, where)
+    if st == 'nonsticky-uidlink' and world.under(before, '/mnt/v1/.Trash') != world.under(after, '/mnt/v1/.Trash'):
+        sub_a = dict(sub_a, **{'(.Trash itself)': ('changed',)})
     link_same = before.get('/mnt/v1/.Trash') == after.get('/mnt/v1/.Trash') or before.get('/mnt/v1/.Trash', ('x',))[0] == 'd'
     mentions = 'one-v1' in r.out or 'two-v1' in r.out
     if st == 'absent':
@@ -193,7 +202,7 @@ def run_case(c):
             changed = sorted(k for k in set(sub_b) | set(sub_a) if sub_b.get(k) != sub_a.get(k))
             return {'verdict': 'viol', 'sig': 'C08|insecure-top-modified|cmd=%s|st=%s' % (cmd, 'symlink' if 'symlink' in st else st),
                     'klass': 'insecure-modified', 'nontrivial': 'mod|' + dims, 'detail': dict(detail, changed=changed[:8])}
-        if mentions and cmd in ('list', 'restore', 'list-all-users', 'list-size', 'list-files'):
+        if mentions and cmd in ('list', 'restore', 'restore-empty-td', 'list-all-users', 'list-size', 'list-files'):
             return {'verdict': 'viol', 'sig': 'C08|insecure-top-shown|cmd=%s|st=%s' % (cmd, 'symlink' if 'symlink' in st else st),
                     'klass': 'insecure-shown', 'nontrivial': 'shown|' + dims, 'detail': detail}
         if cmd == 'put':
@@ -205,7 +214,7 @@ def run_case(c):
                 return {'verdict': 'viol', 'sig': 'C08|put-succeeded-although-no-secure-directory-is-usable|st=%s' % st, 'klass': 'insecure-used-as-last-resort',
                         'nontrivial': 'lastresort|' + dims, 'detail': detail}
             return {'verdict': 'ok', 'klass': 'insecure:put-failed-cleanly', 'nontrivial': examined and ('failed|' + dims), 'detail': detail}
-        if cmd in ('list', 'list-size', 'list-files') and st in ('nonsticky', 'nonsticky-private', 'nonsticky-setgid', 'symlink-sticky', 'symlink-nonsticky') and '/mnt/v1/.Trash' not in r.err:
+        if cmd in ('list', 'list-size', 'list-files') and st in ('nonsticky', 'nonsticky-uidlink', 'nonsticky-private', 'nonsticky-setgid', 'symlink-sticky', 'symlink-nonsticky') and '/mnt/v1/.Trash' not in r.err:
             return {'verdict': 'viol', 'sig': 'C08|list-silent-about-skipped-dir|st=%s' % st, 'klass': 'list-silent',
                     'nontrivial': 'silent|' + dims, 'detail': detail}
         if cmd == 'list-all-users' and st in ('nonsticky', 'nonsticky-private', 'nonsticky-setgid', 'symlink-sticky', 'symlink-nonsticky'):
@@ -218,7 +227,7 @@ def run_case(c):
         return {'verdict': 'ok', 'klass': 'insecure:ignored', 'nontrivial': examined and ('ignored|' + dims), 'detail': detail}
     # secure control group: the directory must be used
     used = {'put': bool(world.under(after, td + '/files/new')), 'put-alt-blocked': bool(world.under(after, td + '/files/new')),
-            'list': mentions, 'list-size': mentions, 'list-files': mentions, 'restore': mentions,
+            'list': mentions, 'list-size': mentions, 'list-files': mentions, 'restore': mentions, 'restore-empty-td': mentions,
             'empty': not world.under(after, td + '/files/one'), 'empty0': not world.under(after, td + '/files/one'),
             'rm-star': not world.under(after, td + '/files/one'), 'rm-exact': not world.under(after, td + '/files/one'),
             'list-all-users': 'one-v1b' in r.out and '/mnt/v1/w/one-v1\n' in r.out,
